@@ -66,6 +66,7 @@ func parseSettled(dump []byte) (Parked, bool) {
 	}
 	var gs []g
 	var mine []byte
+	first := true
 	for len(dump) > 0 {
 		i := bytes.IndexByte(dump, '\n')
 		var line []byte
@@ -90,7 +91,10 @@ func parseSettled(dump []byte) (Parked, bool) {
 		if k := bytes.IndexByte(inner, ','); k >= 0 { // ", 2 minutes"
 			inner = inner[:k]
 		}
-		if bytes.Equal(inner, []byte("running")) && bubble != nil {
+		if first {
+			// runtime.Stack prints the calling goroutine first; every other goroutine - also one that is
+			// "running" (e.g. inside a raw system call) - is judged below
+			first = false
 			mine = bubble
 			continue
 		}
@@ -156,6 +160,7 @@ func HelpersParked(createdBy string) (int, string) {
 		body          []byte
 	}
 	var gs []g
+	firstBlk := true
 	for _, blk := range bytes.Split(dump, []byte("\n\n")) {
 		nl := bytes.IndexByte(blk, '\n')
 		if nl < 0 {
@@ -175,7 +180,8 @@ func HelpersParked(createdBy string) (int, string) {
 		if k := bytes.IndexByte(inner, ','); k >= 0 {
 			inner = inner[:k]
 		}
-		if bytes.Equal(inner, []byte("running")) && bubble != nil {
+		if firstBlk {
+			firstBlk = false
 			mine = bubble
 			continue
 		}
